@@ -227,6 +227,78 @@ theorem trimmed_bases_count (quals : Bytes) (cf cb base : Int) (xs : List α) (h
   simp only [seg_length]
   omega
 
+
+/-! ## Idempotence: trimming the trimmed read again removes nothing -/
+
+theorem sufSum_take (d : List Int) (s t : Nat) (hts : t ≤ s) (hs : s ≤ d.length) :
+    sufSum (d.take s) t = sufSum d t - sufSum d s := by
+  unfold sufSum
+  have h : d.drop t = (d.take s).drop t ++ d.drop s := by
+    have : d.drop t = (d.take s ++ d.drop s).drop t := by rw [List.take_append_drop]
+    rw [this, List.drop_append_of_le_length (by simp; omega)]
+  rw [h, List.sum_append]; omega
+
+theorem sufSum_length (d : List Int) : sufSum d d.length = 0 := by simp [sufSum]
+
+/-- generic idempotence of the 3' scan: on the kept prefix the scan keeps everything (from `back_spec` alone, i.e. it is a consequence
+    of the BWA definition and of the tie rule "shortest removed suffix") -/
+theorem back_idempotent (d : List Int) (stop : Nat) (hstop : stop = d.length - bestPrefix d.reverse) :
+    (d.take stop).length - bestPrefix (d.take stop).reverse = stop := by
+  have hd := back_spec d
+  have hd' := back_spec (d.take stop)
+  simp only [← hstop] at hd
+  obtain ⟨h1, h2, h3, h4⟩ := hd
+  have hlen : (d.take stop).length = stop := by simp; omega
+  generalize hs' : (d.take stop).length - bestPrefix (d.take stop).reverse = stop' at hd' ⊢
+  simp only [] at hd'
+  obtain ⟨g1, g2, g3, g4⟩ := hd'
+  rw [hlen] at g1 g4
+  by_cases hlt : stop' < stop
+  · exfalso
+    have hpos := g4 stop hlt (Nat.le_refl _)
+    rw [sufSum_take d stop stop (Nat.le_refl _) h1, sufSum_take d stop stop' (by omega) h1] at hpos
+    have hstop0 : 0 ≤ sufSum d stop := by
+      by_cases he : stop < d.length
+      · exact h2 stop (Nat.le_refl _) he
+      · have : stop = d.length := by omega
+        rw [this, sufSum_length]; exact Int.le_refl _
+    have hr : ReachBack d stop' := by
+      intro t ht htn
+      by_cases hts : t < stop
+      · have := g2 t ht (by rw [hlen]; exact hts)
+        rw [sufSum_take d stop t (by omega) h1] at this; omega
+      · exact h2 t (by omega) htn
+    have := h3 stop' (by omega) hr
+    omega
+  · omega
+
+/-- **3' quality trimming is idempotent**: running `-q cutoff` on a read that was already trimmed with the same cutoff removes nothing
+    more — for every quality string, cutoff and base. (A scan that restarted from a different position, compared with `≥` instead of `>`,
+    or forgot the early stop would break this on reads with a good base between two bad stretches.) -/
+theorem trim3_idempotent (cutoff base : Int) (quals : Bytes) :
+    trim3 cutoff base (quals.take (trim3 cutoff base quals)) = trim3 cutoff base quals := by
+  have := back_idempotent (quals.map (dval cutoff base)) (trim3 cutoff base quals) (by simp [trim3])
+  simpa [trim3, List.map_take] using this
+
+/-- the same for the NextSeq variant on the values it scans -/
+theorem nextseq_idempotent (seq quals : Bytes) (cutoff base : Int) (hl : seq.length = quals.length) :
+    nextseqTrimIndex (seq.take (nextseqTrimIndex seq quals cutoff base)) (quals.take (nextseqTrimIndex seq quals cutoff base)) cutoff base
+      = nextseqTrimIndex seq quals cutoff base := by
+  have hlen : (nextseqVals seq quals cutoff base).length = quals.length := by simp [nextseqVals, hl]
+  have hle : nextseqTrimIndex seq quals cutoff base ≤ quals.length := by unfold nextseqTrimIndex; omega
+  have := back_idempotent (nextseqVals seq quals cutoff base) (nextseqTrimIndex seq quals cutoff base)
+    (by simp [nextseqTrimIndex, hlen])
+  generalize nextseqTrimIndex seq quals cutoff base = k at this hle ⊢
+  have ht : nextseqVals (seq.take k) (quals.take k) cutoff base = (nextseqVals seq quals cutoff base).take k := by
+    simp [nextseqVals, List.take_zipWith]
+  unfold nextseqTrimIndex
+  rw [ht]
+  simp only [List.length_take] at this ⊢
+  rw [hlen] at this
+  omega
+
+example : trim3 10 33 [73,73,35,73,35,35] = 4 ∧ trim3 10 33 ([73,73,35,73,35,35].take 4) = 4 := by decide
+
 /-! Non-vacuity: concrete runs. `"IIII#I##"` (cutoff 10, base 33): qualities 40,40,40,40,2,40,2,2. -/
 example : qualityTrimIndex [73,73,73,73,35,73,35,35] 10 10 33 = (0, 6) := by decide
 example : qualityTrimIndex [35,35,73,73] 10 10 33 = (2, 4) := by decide
